@@ -10,6 +10,8 @@ mod term;
 mod util;
 
 mod c01;
+mod multi;
+mod multi_props;
 
 use report::{Shard, Stats};
 use serde_json::{json, Value};
@@ -48,7 +50,14 @@ struct Check {
 }
 
 fn checks() -> Vec<Check> {
-    vec![Check { id: "C01", run: c01::run, meta: c01::meta, replay: c01::replay }]
+    use multi_props as mp;
+    vec![
+        Check { id: "C01", run: c01::run, meta: c01::meta, replay: c01::replay },
+        Check { id: "C02", run: mp::c02_run, meta: mp::c02_meta, replay: mp::c02_replay },
+        Check { id: "C03", run: mp::c03_run, meta: mp::c03_meta, replay: mp::c03_replay },
+        Check { id: "C04", run: mp::c04_run, meta: mp::c04_meta, replay: mp::c04_replay },
+        Check { id: "C19", run: mp::c19_run, meta: mp::c19_meta, replay: mp::c19_replay },
+    ]
 }
 
 const VERIF: &str = "/verif";
